@@ -1480,10 +1480,13 @@ public:
             ctx_.enqueue(this, strptr_.flip(bkt[i], bktsize), depth_);
         }
 
-        this->substep_notify_done(); // release anonymous subjob handle
-
+        // without LCPs the bucket boundaries are no longer needed. this must
+        // happen before the anonymous handle is released: if no substep is
+        // outstanding, substep_notify_done() deletes this object.
         if (!strptr_.with_lcp)
             bkt_[0].destroy();
+
+        this->substep_notify_done(); // release anonymous subjob handle
     }
 
     /*------------------------------------------------------------------------*/
